@@ -232,6 +232,13 @@ def run_point(g, n, rnd, force_seg=None):
         req = keys + miss
         rnd.shuffle(req)
         coll = g["coll"]
+        if coll.endswith("dup"):
+            # the collection names keys more than once: the same object again, and an equal key built separately
+            coll = coll[:-3]
+            twin = keys[0]
+            twin = "".join(list(twin)) if isinstance(twin, str) else bytes(bytearray(twin))
+            req = req + [keys[0], keys[-1], twin]
+            rnd.shuffle(req)
         if kind == "hash" and coll in ("iter",):
             coll = "tuple"
         arg = {"list": list, "tuple": tuple, "set": set, "dictview": lambda x: dict.fromkeys(x).keys(),
